@@ -39,6 +39,7 @@ REAL_STUB = {
 EXPECTED_PROBES = ["probe_get_ok", "probe_post_ok", "probe_unknown_path", "probe_wrong_method", "probe_handler_raised", "probe_redefined",
                    "probe_concurrent_pair", "probe_keepalive_reuse", "probe_disconnect_mid_request", "probe_webc", "probe_nonascii_param",
                    "probe_ws_pushed", "probe_ws_sent", "probe_ws_peer_close", "probe_ws_mixed_list", "probe_ws_object",
+                   "probe_ws_handler_amends_its_message", "probe_ws_same_text_repeated", "probe_post_chunked", "probe_post_multipart",
                    "probe_handler_rebound_to_non_function", "probe_request_while_handler_is_not_a_function", "probe_post_with_query_string",
                    "probe_ws_send_mutated_dict", "probe_ws_two_connections"]
 WALL_CAP = {"quick": 400, "thorough": 3600}
@@ -163,6 +164,29 @@ def scenario(ch, cfg):
             # a POST may carry a query string as well: the handler's dictionary is the FORM, nothing else
             stats["probe_post_with_query_string"] += 1
             path = path + "?token=abc&n=query"
+        form = ch.weighted([4, 2, 1], "postform")
+        if form == 1 and body:
+            # a streamed body: Transfer-Encoding: chunked, no Content-Length header (HTTP/1.1 clients that do not know the
+            # length in advance send this); the form is the same form
+            stats["probe_post_chunked"] += 1
+            cut = 1 + ch.draw(len(body), "chunkcut") if len(body) > 1 else 1
+            chunks = [body[:cut], body[cut:]] if body[cut:] else [body]
+            enc = b"".join(f"{len(c):x}\r\n".encode() + c + b"\r\n" for c in chunks) + b"0\r\n\r\n"
+            return (f"POST {path} HTTP/1.1\r\nHost: sim\r\nContent-Type: application/x-www-form-urlencoded\r\n"
+                    f"Transfer-Encoding: chunked\r\n\r\n").encode() + enc
+        if form == 2 and params and net.frag_mode == 0:
+            # (only in runs whose network delivers whole buffers: aiohttp 3's multipart reader fails with "Reading after EOF"
+            # when a form arrives in segments of a few bytes - a defect of that library, reproduced on real sockets while
+            # building this workload, not a matter of klongpy)
+            # the same form as multipart/form-data (what a browser sends for forms with enctype=multipart)
+            stats["probe_post_multipart"] += 1
+            bd = "simboundary7MA4YWxk"
+            parts = b"".join((f"--{bd}\r\nContent-Disposition: form-data; name=\"{k.replace(chr(34), '%22')}\"\r\n\r\n").encode() + v.encode() + b"\r\n"
+                             for k, v in params.items())
+            if not any(chr(34) in k or "\r" in k or "\n" in k for k in params):
+                mbody = parts + f"--{bd}--\r\n".encode()
+                return (f"POST {path} HTTP/1.1\r\nHost: sim\r\nContent-Type: multipart/form-data; boundary={bd}\r\n"
+                        f"Content-Length: {len(mbody)}\r\n\r\n").encode() + mbody
         return (f"POST {path} HTTP/1.1\r\nHost: sim\r\nContent-Type: application/x-www-form-urlencoded\r\n"
                 f"Content-Length: {len(body)}\r\n\r\n").encode() + body
 
@@ -453,6 +477,7 @@ def scenario_ws(ch, cfg):
     reclog2 = []
     hbad = []
     two = ch.draw(2, "twoconns") == 1
+    amending = ch.draw(2, "amending") == 1
 
     def wsrec(x, y, z):
         """x: the connection the message arrived on, y: the message, z: the value of .ws.h inside the handler"""
@@ -460,6 +485,8 @@ def scenario_ws(ch, cfg):
         which = 0 if x is ncs.get(0) else (1 if x is ncs.get(1) else None)
         if z is not x:
             hbad.append(f"message {y!r:.30} arrived on connection {which} but .ws.h was {'connection ' + str(0 if z is ncs.get(0) else 1 if z is ncs.get(1) else '?')}")
+        import copy as _copy
+        y = _copy.deepcopy(y)              # the value as it arrived (the handler may go on to amend the message it was given)
         if which == 0:
             reclog.append(y)
         elif which == 1:
@@ -476,7 +503,12 @@ def scenario_ws(ch, cfg):
     def client_boot():
         k = cl.klong
         from klongpy.core import KGSym
-        k(".ws.m::{[a];a::x;wsrec(x;y;.ws.h)}")
+        if amending:
+            # a handler that stamps the message it received (a dictionary is amended in place): its own copy, nobody else's
+            stats["probe_ws_handler_amends_its_message"] += 1
+            k('.ws.m::{[a];a::x;wsrec(x;y;.ws.h);y,"seen",,1;1}')
+        else:
+            k(".ws.m::{[a];a::x;wsrec(x;y;.ws.h)}")
         k(f'c::.ws("ws://127.0.0.1:{WSPORT}")')
         ncs[0] = k._context[KGSym("c")]
         if two:
@@ -500,6 +532,13 @@ def scenario_ws(ch, cfg):
         sock = conns[0]
         nmsg = 1 + ch.draw(8, "nmsg")
         msgs = [ch.pick(JSON_VALUES, "json") for _ in range(nmsg)]
+        if ch.draw(3, "repeat") == 0:
+            # the same text more than once (a feed that repeats itself): every arrival is a message of its own
+            objs = [m for m in JSON_VALUES if isinstance(m, dict) and m]
+            rep = ch.pick(objs, "repeat.obj")
+            msgs = msgs + [rep] * (2 + ch.draw(2, "repeat.n"))
+            nmsg = len(msgs)
+            stats["probe_ws_same_text_repeated"] += 1
         close_after = ch.draw(nmsg + 1, "closeafter") if ch.chance(1, 3, "peerclose") else None
         nsend = ch.draw(4, "nsend")
         sends = [ch.pick(SEND_LITS, "sendlit") for _ in range(nsend)]
